@@ -38,6 +38,10 @@ Fixpoint bytes_join (sep : list Z) (ls : list (list Z)) : list Z :=
   | x :: rest => x ++ sep ++ bytes_join sep rest
   end.
 
+(* l.endswith(p) *)
+Definition bytes_endswith (l p : list Z) : bool := bytes_startswith (rev l) (rev p).
+Definition bytes_is_empty (l : list Z) : bool := match l with [] => true | _ => false end.
+
 (* b"x" in l *)
 Definition bytes_contains1 (c : Z) (l : list Z) : bool := existsb (Z.eqb c) l.
 (* l.replace(b"x", new) for a one-byte pattern *)
